@@ -283,7 +283,11 @@ class Ctx:
                    rule=" || ".join(self.rules) or "see correspondences", theorems=[o[0] for o in self.obl],
                    theorems_failed=[o[0] for o in self.obl if not o[1]], source_blob_hashes=self.src_hashes,
                    known_findings_seen=sorted(seen_keys), notes=self.notes)
-        if self.exhaustive is not None: cov["exhaustive"] = self.exhaustive
+        if self.exhaustive is not None:
+            if isinstance(self.exhaustive, dict):        # a check may describe the finite space it enumerated: the schema field itself is a boolean
+                cov["exhaustive"] = bool(self.exhaustive.get("complete", True)); cov["exhaustive_domain"] = self.exhaustive
+            else:
+                cov["exhaustive"] = bool(self.exhaustive)
         if not cov["samples"]: cov["samples"] = [{"theorems": [o[0] for o in self.obl][:10]}]
         ev = dict(property_id=self.pid, tier=self.tier, seed=self.seed, level="proof", coverage=cov, assumptions=self.assume,
                   wall_s=round(time.time() - self.t0, 1), violations=len(new) + (1 if self.brokens and not new else 0))
